@@ -400,6 +400,10 @@ class Component(Spatialable):
 
     model_config = ConfigDict(arbitrary_types_allowed=True)
 
+    _declared_costs: dict | None = PrivateAttr(default=None)
+    """ Area, leak power and per-action energy/throughput as declared, recorded by
+    ``Spec.calculate_component_costs`` so that re-costing starts from them. """
+
     def _update_actions(self, new_actions: EvalableList[Action]):
         has_actions = oset(x.name for x in self.actions)
         for action in new_actions:
